@@ -358,6 +358,21 @@ def _kernel(ctx: Ctx, k: FuncInfo, fea: bool) -> dict[str, Any]:
                        "reversal", construct=f"reversal {ast.unparse(s)}")
     walk(acc.body, base)
     ctx.count("slice_assignments", n_slices[0])
+    # every path of the accept branch that returns the new length applies
+    # a reversal (dominance on the statement CFG)
+    from sa.cfg import CFG
+    cfg = CFG(k.node)
+    slice_nodes = {id(s) for s in writes}
+    ret_node = next((nd for nd in cfg.nodes if nd.ast is acc_ret), None)
+    applied = ret_node is not None and acc_ret is not None and \
+        cfg.dominated_by(ret_node, lambda nd: nd.kind == "stmt"
+                         and id(nd.ast) in slice_nodes)
+    ctx.ob("D6.2", k, acc_ret or acc, bool(applied),
+           "every path that returns the new length has reversed x[i..j]"
+           if applied else
+           "a path returns y + dy although the tour was not changed: the "
+           "registered length is not the length of x",
+           construct="reversal on every accept path")
     return {"dy": dy_term}
 
 
